@@ -40,10 +40,13 @@ def plan(ctx, tier, seed):
     for sz in (1, 2, 4):
         sbs = range(sz * 8) if (tier == "thorough" or sz < 4) else (0, 7, 8, 15, 16, 23, 24, 31)
         for sb in sbs:
-            hs.append(H("C05.K3.nbit.sz%d.sb%d" % (sz, sb), "C05", src="harness/C05/k3_nbit.c", units=["hdf/src/hdfalloc.c"], models=["herr"],
-                        defs={"NTSZ": sz, "START_BIT": sb}, unwind=40, kind="K", timeout=600, extra_cc=["-I/verif/harness/C05"], field_sens=256,
-                        symbolic="2 values (all bit patterns)", bound="start bit enumerated; every bit length, sign_ext, fill_one (concrete loop)",
-                        group="C05.K3.nbit"))
+            # read partition: quick = [1][2] (a growing request) everywhere + one call / [2][1] at a seed-chosen start bit; thorough = all three everywhere
+            parts = (0, 1, 2) if (tier == "thorough" or sb == (seed * 5 + 3) % (sz * 8)) else (1,)
+            for part in parts:
+                hs.append(H("C05.K3.nbit.sz%d.sb%d.p%d" % (sz, sb, part), "C05", src="harness/C05/k3_nbit.c", units=["hdf/src/hdfalloc.c"], models=["herr"],
+                            defs={"NTSZ": sz, "START_BIT": sb, "PART": part}, unwind=40, kind="K", timeout=900, extra_cc=["-I/verif/harness/C05"], field_sens=256,
+                            symbolic="3 values (all bit patterns)", bound="start bit and read partition enumerated; every bit length, sign_ext, fill_one (concrete loop)",
+                            group="C05.K3.nbit"))
     import random
     rng = random.Random(500 + seed)
     wl = [(1, 7, 8, 9), (32, 32, 1, 31), (5, 5, 5, 5), (8, 16, 24, 32), (3, 13, 17, 2), (31, 1, 1, 31), (12, 20, 4, 28), (7, 9, 15, 1)]
